@@ -615,3 +615,52 @@ def classify_kf(case, fail, il, findings, mapping):
         if fid in ids and pred(case, fail, il):
             return fid
     return None
+
+
+# ---------------------------------------------------------------------------------------------
+# validation of the adaptor contract on real loopback sockets (net_driver)
+
+def net_bigbody_checks(tier, binaries, log, variants, prop):
+    """the response to a non keep-alive request must arrive complete, whatever its size and however slowly the peer
+    reads; over TLS the end must be a clean close_notify"""
+    import re
+    import subprocess
+    import vlib
+    res = []
+    samples = []
+    n = 0
+    sizes = [8388608] if tier == "quick" else [100, 8388608, 33554432]
+    versions = ["1.0"] if tier == "quick" else ["1.0", "1.1close", "1.1"]
+    for h in variants:
+        try:
+            binary = binaries.get(h) or vlib.build_harness(h, log)
+        except vlib.BuildError as e:
+            res.append((False, "net_driver (%s) does not build against the current tree: %s" % (h, str(e)[-300:]), "build " + h, {}))
+            continue
+        for size in sizes:
+            for v in versions:
+                args = ["bigbody", "size=%d" % size, "version=" + v, "delay_ms=300"]
+                try:
+                    r = subprocess.run([binary] + args, capture_output=True, text=True, timeout=120)
+                except subprocess.TimeoutExpired:
+                    res.append((False, "net_driver %s hung" % " ".join(args), "%s %s" % (h, " ".join(args)), {}))
+                    continue
+                m = re.search(r"^RESULT (.*)$", r.stdout, re.M)
+                n += 1
+                cmdline = "%s %s" % (h, " ".join(args))
+                if not m:
+                    res.append((False, "net_driver failed: " + (r.stdout + r.stderr)[-300:], cmdline, {}))
+                    continue
+                kv = dict(x.split("=", 1) for x in m.group(1).split() if "=" in x)
+                samples.append({"variant": h, "size": size, "version": v, "received_body": kv.get("received_body"), "end": kv.get("end")})
+                if kv.get("complete") != "1":
+                    res.append((False, "real socket (%s): the response to an HTTP %s request announced %d body bytes, the peer received %s before %s"
+                                % (h, v, size, kv.get("received_body"), kv.get("end")), cmdline, {}))
+                elif v != "1.1" and h.endswith("tls") and kv.get("end") != "tls_close_notify":
+                    res.append((False, "TLS: the connection ended with %s instead of a close_notify after the last response byte" % kv.get("end"), cmdline, {}))
+                elif v != "1.1" and kv.get("end") not in ("eof", "tls_close_notify"):
+                    res.append((False, "the connection of a non keep-alive request ended with %s" % kv.get("end"), cmdline, {}))
+                elif v == "1.1" and kv.get("end") != "open":
+                    res.append((False, "a keep-alive connection was closed after the response (%s)" % kv.get("end"), cmdline, {}))
+    res.append((True, "", "", {"real_socket_runs": n, "real_socket_samples": samples}))
+    return res
